@@ -78,13 +78,17 @@ def san_summary(stderr):
     return out[:5]
 
 
-def run_cases(exe, lines):
+def run_cases(exe, lines, symbolize=False):
     """one process per batch; every answer is flushed, so after an abort the first unanswered
     request is the culprit: it is answered `OOB` and the remainder is re-run; after a few aborts
     the remainder runs with one forked child per request (the harness attributes aborts itself).
-    -> (answers, {index: sanitizer summary})"""
+    Bulk runs do not symbolize the reports (one llvm-symbolizer start per abort); a witness is re-run
+    with symbolization.  -> (answers, {index: sanitizer summary})"""
     env = dict(os.environ)
     env.update(SAN_ENV)
+    if not symbolize:
+        env["ASAN_OPTIONS"] += ":symbolize=0"
+        env["UBSAN_OPTIONS"] += ":symbolize=0"
     answers, reports = [], {}
     pos, crashes = 0, 0
     while pos < len(lines):
@@ -287,7 +291,7 @@ def make_cases(run, scale):
 
 
 def exhaustive_cases():
-    """thorough: every subset of a 6-ARFCN pool x len 0/1 x every bitmap, and len 2 x every bitmap for 8 subsets"""
+    """thorough: every subset of a 6-ARFCN pool x len 0/1 x every bitmap, and len 2 x every bitmap for 4 allocations"""
     pool = [0, 1, 2, 3, 1022, 1023]
     subsets = [[pool[i] for i in range(6) if m >> i & 1] for m in range(64)]
     for s in subsets:
@@ -295,7 +299,7 @@ def exhaustive_cases():
         for b in range(256):
             yield Case(s, bytes([b]), 1, b & 1, tag="exh")
     wide = list(range(1, 15)) + [0]
-    for s in ([], [0], [5], [0, 5], pool, wide, wide[:9], list(range(100, 116))):
+    for s in ([0, 5], pool, wide, list(range(100, 116))):
         for b in range(65536):
             yield Case(s, bytes([b >> 8, b & 255]), 2, (b >> 3) & 1, tag="exh")
 
@@ -332,6 +336,8 @@ def judge(case, answer):
     if answer == "NOT-RUN":
         return None
     if answer == "OOB":
+        if case.len > 8 and len(case.ma) < case.len:
+            return "bitmap of %d octets not rejected: the function went on to read it (sanitizer report; this request's ma object is shorter than len)" % case.len
         return "sanitizer report (access outside a buffer / undefined behaviour)"
     p = parse_answer(answer)
     if p is None:
@@ -340,7 +346,9 @@ def judge(case, answer):
     if case.len > 8:
         return None if rc < 0 else "bitmap of %d octets not rejected (rc=%d)" % (case.len, rc)
     if len(set(case.ca)) > 64:
-        return None                      # outside the property's quantifier (correspondence only)
+        # the decoded list is judged for the cell allocations of the property's quantifier only
+        # (an access outside a buffer is reported for every cell allocation, see above)
+        return None
     want = spec_select(case.ca, case.ma[:case.len])
     if rc != 0:
         return "rc=%d for a bitmap of %d octets" % (rc, case.len)
@@ -362,10 +370,14 @@ def witness_of(run, case, answer, what, report):
     else:
         w["spec"] = {"rc": "< 0"}
     if answer == "OOB":
-        w["sanitizer"] = report or []
+        try:
+            a1, r1 = run_cases(build_harness(run), [case.line()], symbolize=True)
+            w["sanitizer"] = r1.get(0, report or [])
+        except vf.HarnessError:
+            w["sanitizer"] = report or []
         # tell undefined behaviour without a memory error (zero-sized VLA) from an overrun ASan sees
         try:
-            a2, r2 = run_cases(build_harness(run, "asan"), [case.line()])
+            a2, r2 = run_cases(build_harness(run, "asan"), [case.line()], symbolize=True)
             w["asan_only"] = {"impl": a2[0], "sanitizer": r2.get(0, [])}
         except vf.HarnessError as e:
             w["asan_only"] = {"error": str(e)[-300:]}
@@ -382,7 +394,7 @@ def correspond(run, corr):
     drifted = h != MODEL_HASH
     if drifted:
         corr.notes.append("function text differs from the one the model was written against (%s != %s): case count x3" % (h, MODEL_HASH))
-    scale = (10 if run.thorough else 1) * (3 if drifted else 1)
+    scale = (6 if run.thorough else 1) * (3 if drifted else 1)
     cases = make_cases(run, min(scale, 12))
     if run.thorough:
         cases += list(exhaustive_cases())
@@ -422,7 +434,7 @@ def correspond(run, corr):
                  "cell allocations of size 0..64 around every multiple of 8, with/without ARFCN 0, dense/sparse/band edges, and > 64 entries; "
                  "len 0..9 (+ up to 255); bitmaps: zero, all-ones, exactly the cell allocation, bit just beyond it, last bit inside, "
                  "single bits at every position, alternating, random; all non-trivial (each runs the real function under ASan+UBSan); "
-                 "thorough adds every subset of a 6-ARFCN pool x every 1-octet bitmap and every 2-octet bitmap for 8 allocations")
+                 "thorough adds every subset of a 6-ARFCN pool x every 1-octet bitmap and every 2-octet bitmap for 4 allocations")
     nt = [i for i, c in enumerate(cases) if c.len and c.ca][:3] + [i for i, c in enumerate(cases) if c.tag == "biglen"][:1]
     corr.samples = [{"request": reqs[i], "impl": impl[i], "model": model[i]} for i in nt]
     corr.samples.append({"request": sreqs[0], "impl": spy[0], "model": smodel[0]})
@@ -440,7 +452,7 @@ def search(run, corr, deep):
         st = {"cases": cases, "impl": impl, "reports": reports}
     cases, impl, reports = list(st["cases"]), list(st["impl"]), dict(st["reports"])
     if deep and not run.thorough:
-        more = make_cases(run, 4)
+        more = make_cases(run, 3)
         a2, r2 = run_cases(build_harness(run), [c.line() for c in more])
         for k, v in r2.items():
             reports[len(cases) + k] = v
@@ -486,7 +498,7 @@ def replay(run, path):
         if len(toks) == 7:
             c.stale = parse_ca(toks[5])
             c.bg = int(toks[6])
-        ans, reps = run_cases(exe, [c.line()])
+        ans, reps = run_cases(exe, [c.line()], symbolize=True)
         what = judge(c, ans[0])
         print("replay %s\n  impl: %s %s\n  spec: %s\n  -> %s" % (c.line(), ans[0], reps.get(0, ""), w.get("spec"), what or "ok"))
         bad += bool(what)
